@@ -206,15 +206,18 @@ Qed.
 Definition pair_in (l : list (string * string)) (p : string * string) : bool :=
   existsb (fun q => String.eqb (fst p) (fst q) && String.eqb (snd p) (snd q)) l.
 
-Definition bin_pairs := [("+", "+"); ("-", "-"); ("*", "*"); ("%", "/"); ("^", "**")].
+Definition bin_pairs := [("+", "+"); ("-", "-"); ("*", "*")].
+Definition call_pairs := [("%", "_div"); ("^", "_pow")].
 Definition cmp_pairs := [("=", "=="); (">", ">"); ("<", "<")].
 Definition red_pairs := [("+", "np.add.reduce"); ("*", "np.multiply.reduce"); ("|", "np.maximum.reduce"); ("&", "np.minimum.reduce")].
 Definition scan_pairs := [("+", "np.add.accumulate"); ("*", "np.multiply.accumulate")].
 
-(* every entry of the op->text dictionaries is one whose Python meaning is the verb's *)
+(* every entry of the op->text dictionaries is one whose Python meaning is the verb's, and the helper names
+   are bound to the verbs' own implementations *)
 Definition tables_ok (T : tables) : bool :=
   forallb (pair_in bin_pairs) (t_bin T) && forallb (pair_in cmp_pairs) (t_cmp T) &&
-  forallb (pair_in red_pairs) (t_red T) && forallb (pair_in scan_pairs) (t_scan T).
+  forallb (pair_in red_pairs) (t_red T) && forallb (pair_in scan_pairs) (t_scan T) &&
+  forallb (pair_in call_pairs) (t_call T) && helpers_bound T.
 
 Lemma assoc_in : forall (l : list (string * string)) s v, assoc s l = Some v -> In (s, v) l.
 Proof.
@@ -336,50 +339,54 @@ Proof. intros a a' H S. unfold veq in H. destruct a, a'; cbn in *; try discrimin
 Lemma isscalar_veq : forall a a', veq a a' -> isscalar a = isscalar a'.
 Proof. intros a a' H. unfold veq in H. destruct a, a'; cbn in *; try discriminate; reflexivity. Qed.
 
-(* division: :undefined in the interpreter is ZeroDivisionError in the emitted code only when both
-   operands are Python scalars; `und` says that is the case whenever the interpreter answers :undefined *)
-Lemma py_div_kg : forall a b a' b' v,
-  wfv a -> wfv b -> veq a a' -> veq b b' ->
-  (is_undef (kg_dyad "%" a' b') = true -> pyscalar a && pyscalar b = true) ->
-  py_binop "/" a b = Ok v ->
-  agrees (kg_dyad "%" a' b') v /\ wfv v /\ (pyscalar a && pyscalar b = true -> pyscalar v = true).
+(* compiled_divide against the interpreter's Divide *)
+Lemma py_div_guarded_kg : forall a b a' b' v,
+  wfv a -> wfv b -> veq a a' -> veq b b' -> py_div_guarded a b = Ok v ->
+  agrees (kg_dyad "%" a' b') v /\ wfv v.
 Proof.
-  intros a b a' b' v Wa Wb Ea Eb U H.
-  change (py_binop "/" a b) with
-    (match a, b with
-     | VS false x, VS false y => if is_zero y then Err else Ok (VS false (n_div x y))
-     | _, _ => np_lift2 n_div a b end) in H.
+  intros a b a' b' v Wa Wb Ea Eb H.
   change (kg_dyad "%" a' b') with
     (match b' with
      | VS _ y => if is_zero y && negb (isarr a') then Ok VUndef else kg_arith n_div a' b'
-     | _ => kg_arith n_div a' b' end) in *.
-  destruct (isscalar a && isscalar b) eqn:SC.
-  - apply andb_true_iff in SC. destruct SC as [Sa Sb].
-    destruct a as [na x | | | | | | |]; try discriminate. destruct b as [nb y | | | | | | |]; try discriminate.
-    destruct (veq_scalar_inv _ _ _ Ea) as [na' ->]. destruct (veq_scalar_inv _ _ _ Eb) as [nb' ->].
-    cbn [isarr negb] in *. rewrite andb_true_r in *.
-    destruct (is_zero y) eqn:Z.
-    + specialize (U eq_refl). apply andb_true_iff in U. destruct U as [U1 U2].
-      destruct na; [discriminate |]. destruct nb; [discriminate |]. discriminate.
-    + assert (K : kg_arith n_div (VS na' x) (VS nb' y) = Ok (VS true (n_div x y))) by reflexivity.
-      rewrite K. destruct na, nb; cbn in H; try rewrite Z in H; injection H as <-;
-        (split; [eexists; split; reflexivity | split; [exact I | cbn; try discriminate; reflexivity]]).
-  - assert (H' : np_lift2 n_div a b = Ok v).
-    { destruct a as [[|] x | | | | | | |], b as [[|] y | | | | | | |]; try exact H; cbn in SC; discriminate. }
-    assert (G : agrees (kg_arith n_div a' b') v /\ wfv v).
-    { assert (Na : isnum a' = true) by (rewrite <- (isnum_veq _ _ Ea); apply wfv_isnum; exact Wa).
-      assert (Nb : isnum b' = true) by (rewrite <- (isnum_veq _ _ Eb); apply wfv_isnum; exact Wb).
-      unfold kg_arith. rewrite Na, Nb. cbn [andb]. rewrite <- (np_lift2_veq n_div a a' b b' Ea Eb).
-      split; [exists v; split; [exact H' | reflexivity] | exact (np_lift2_wfv _ _ _ _ Wa Wb H')]. }
-    destruct G as [G1 G2].
-    assert (SC' : isscalar a' && isscalar b' = false)
-      by (rewrite <- (isscalar_veq _ _ Ea), <- (isscalar_veq _ _ Eb); exact SC).
-    split; [| split; [exact G2 |]].
-    + destruct b' as [? y' | | | | | | |]; try exact G1.
-      destruct a' as [? ? | | | | | | |]; try discriminate SC'; cbn [isarr negb]; rewrite ?andb_false_r; try exact G1;
-        unfold agrees, kg_arith in G1; cbn in G1; destruct G1 as [? [G1 _]]; discriminate G1.
-    + intro P. apply andb_true_iff in P. destruct P as [P1 P2].
-      destruct a as [[|] ? | | | | | | |]; try discriminate. destruct b as [[|] ? | | | | | | |]; discriminate.
+     | _ => kg_arith n_div a' b' end).
+  assert (Na : isnum a' = true) by (rewrite <- (isnum_veq _ _ Ea); apply wfv_isnum; exact Wa).
+  assert (Nb : isnum b' = true) by (rewrite <- (isnum_veq _ _ Eb); apply wfv_isnum; exact Wb).
+  assert (K : kg_arith n_div a' b' = np_lift2 n_div a b).
+  { unfold kg_arith. rewrite Na, Nb. cbn [andb]. symmetry. apply np_lift2_veq; assumption. }
+  destruct b as [nb y | m | q | | | | |]; try (cbn in Wb; tauto).
+  - destruct (veq_scalar_inv _ _ _ Eb) as [nb' ->]. unfold py_div_guarded in H.
+    destruct (is_zero y) eqn:Z; [discriminate |]. cbn [andb]. rewrite K.
+    destruct a as [[|] x | l | r | | | | |]; try (cbn in Wa; tauto);
+      try (split; [exists v; split; [exact H | reflexivity] | exact (np_lift2_wfv _ _ _ _ Wa Wb H)]).
+    destruct nb; cbn [pyscalar] in H.
+    + split; [exists v; split; [exact H | reflexivity] | exact (np_lift2_wfv _ _ _ _ Wa Wb H)].
+    + injection H as <-. split; [eexists; split; reflexivity | exact I].
+  - pose proof (veq_nonscalar _ _ Eb eq_refl) as Hb. subst b'. cbn in H. rewrite K.
+    split; [exists v; split; [exact H | reflexivity] | exact (np_lift2_wfv _ _ _ _ Wa Wb H)].
+  - pose proof (veq_nonscalar _ _ Eb eq_refl) as Hb. subst b'. cbn in H. rewrite K.
+    split; [exists v; split; [exact H | reflexivity] | exact (np_lift2_wfv _ _ _ _ Wa Wb H)].
+Qed.
+
+(* _pow is eval_dyad_power itself *)
+Lemma kg_power_veq : forall a a' b b', veq a a' -> veq b b' -> kg_power a b = kg_power a' b'.
+Proof.
+  intros a a' b b' Ea Eb. unfold veq in *.
+  destruct b, b'; cbn in Eb; try discriminate; try (injection Eb as <-); try reflexivity;
+  destruct a, a'; cbn in Ea; try discriminate; try (injection Ea as <-); reflexivity.
+Qed.
+
+Lemma kg_power_kg : forall a b a' b' v,
+  wfv a -> wfv b -> veq a a' -> veq b b' -> kg_power a b = Ok v ->
+  agrees (kg_dyad "^" a' b') v /\ wfv v.
+Proof.
+  intros a b a' b' v Wa Wb Ea Eb H.
+  change (kg_dyad "^" a' b') with (kg_power a' b'). rewrite <- (kg_power_veq _ _ _ _ Ea Eb).
+  split; [exists v; split; [exact H | reflexivity] |].
+  unfold kg_power in H. destruct b as [nb e | | | | | | |]; try discriminate.
+  destruct (nat_of_num e) as [n |]; [| discriminate].
+  destruct a as [na x | l | | | | | |]; try discriminate; injection H as <-;
+    [match goal with |- wfv (if ?c then _ else _) => destruct c end; exact I |].
+  cbn in Wa |- *. destruct (forallb is_integral (map (fun x => n_pow_nat x n) l)); repeat apply map_nonempty; exact Wa.
 Qed.
 
 Lemma py_eq_kg : forall a b a' b' v,
@@ -488,18 +495,20 @@ Proof. intros rho op ea eb a' b' v Ha Hb H. cbn [interp]. rewrite Hb. cbn [bind]
 Lemma eval_ir_interp : forall T, tables_ok T = true -> forall rho0 rho args final e vr i vr',
   ast_to_ir T rho0 e vr = Some (i, vr') -> prefix vr' final -> agree args rho final -> d5 rho e = true ->
   forall v, eval_ir T args i = Ok v ->
-  agrees (interp rho e) v /\ wfv v /\ (pypure rho e = true -> pyscalar v = true).
+  agrees (interp rho e) v /\ wfv v.
 Proof.
   intros T TOK rho0 rho args final. unfold tables_ok in TOK.
+  apply andb_true_iff in TOK. destruct TOK as [TOK Thelp].
+  apply andb_true_iff in TOK. destruct TOK as [TOK Tcall].
   apply andb_true_iff in TOK. destruct TOK as [TOK Tscan].
   apply andb_true_iff in TOK. destruct TOK as [TOK Tred].
   apply andb_true_iff in TOK. destruct TOK as [Tbin Tcmp].
   induction e as [z | f r | s | op ea IHa eb IHb | op ea IHa | op adv ea IHa |];
     intros vr i vr' A P AG D v E; cbn [ast_to_ir] in A.
   - injection A as <- <-. cbn in E. injection E as <-.
-    split; [eexists; split; reflexivity | split; [exact I | reflexivity]].
+    split; [eexists; split; reflexivity | exact I].
   - injection A as <- <-. cbn in E. destruct (sf_finite f); [| discriminate]. injection E as <-.
-    split; [eexists; split; reflexivity | split; [exact I | reflexivity]].
+    split; [eexists; split; reflexivity | exact I].
   - destruct (rho0 s) as [v0 |]; [| discriminate]. destruct (admit_compile T v0); [| discriminate].
     assert (G : exists k, i = IVar (vname k) /\ nth_error final k = Some s).
     { destruct (find_idx s vr) as [k |] eqn:F; injection A as <- <-.
@@ -508,78 +517,70 @@ Proof.
         rewrite nth_error_app2, Nat.sub_diag; [reflexivity | lia]. }
     destruct G as [k [-> N]]. destruct (AG _ _ N) as [v1 [R [AR AC]]].
     cbn in E. rewrite AR in E. injection E as <-. cbn in D. rewrite R in D.
-    split; [exists v1; split; [cbn; rewrite R; reflexivity | reflexivity] |].
-    split; [apply arg_wfv; assumption |]. cbn. rewrite R. tauto.
+    split; [exists v1; split; [cbn; rewrite R; reflexivity | reflexivity] | apply arg_wfv; assumption].
   - destruct (ast_to_ir T rho0 ea vr) as [[l vr1] |] eqn:A1; [| discriminate].
     destruct (ast_to_ir T rho0 eb vr1) as [[r vr2] |] eqn:A2; [| discriminate].
     destruct (ast_to_ir_grows _ _ _ _ _ _ A2) as [P2 _].
-    cbn [d5] in D. apply andb_true_iff in D. destruct D as [D Dund].
-    apply andb_true_iff in D. destruct D as [D Dpow].
-    apply andb_true_iff in D. destruct D as [Da Db].
+    cbn [d5] in D. apply andb_true_iff in D. destruct D as [Da Db].
     assert (Pfin1 : prefix vr1 final) by (destruct (mem op (arith_ops T)); [injection A as _ <- | destruct (mem op (cmp_ops T)); [injection A as _ <- | discriminate]]; eapply prefix_trans; eauto).
     assert (Pfin2 : prefix vr2 final) by (destruct (mem op (arith_ops T)); [injection A as _ <- | destruct (mem op (cmp_ops T)); [injection A as _ <- | discriminate]]; exact P).
-    assert (PP : pypure rho (EDyad op ea eb) = pypure rho ea && pypure rho eb) by reflexivity.
     destruct (mem op (arith_ops T)).
     + injection A as <- _. cbn [eval_ir] in E.
       apply bind_ok in E. destruct E as [a [E1 E]]. apply bind_ok in E. destruct E as [b [E2 E]].
-      destruct (assoc op (t_bin T)) as [o |] eqn:AS; [| discriminate].
-      destruct (IHa _ _ _ A1 Pfin1 AG Da _ E1) as [[a' [Ia Ea]] [Wa Pa]].
-      destruct (IHb _ _ _ A2 Pfin2 AG Db _ E2) as [[b' [Ib Eb]] [Wb Pb]].
-      assert (IN := table_entry _ _ _ _ Tbin AS).
-      assert (PS : pypure rho ea && pypure rho eb = true -> pyscalar a && pyscalar b = true).
-      { intro H. apply andb_true_iff in H. destruct H as [H1 H2]. rewrite (Pa H1), (Pb H2). reflexivity. }
-      rewrite PP.
-      destruct IN as [IN | [IN | [IN | [IN | [IN | []]]]]]; injection IN as <- <-.
-      * change (py_binop "+" a b) with (py_arith n_add a b) in E.
-        destruct (py_arith_kg _ _ _ _ _ _ Wa Wb Ea Eb E) as [G1 [G2 G3]].
-        split; [eapply agrees_interp_dyad; eauto | split; [exact G2 | intro H; apply G3, PS, H]].
-      * change (py_binop "-" a b) with (py_arith n_sub a b) in E.
-        destruct (py_arith_kg _ _ _ _ _ _ Wa Wb Ea Eb E) as [G1 [G2 G3]].
-        split; [eapply agrees_interp_dyad; eauto | split; [exact G2 | intro H; apply G3, PS, H]].
-      * rewrite (py_mul_arith _ _ Wa Wb) in E.
-        destruct (py_arith_kg _ _ _ _ _ _ Wa Wb Ea Eb E) as [G1 [G2 G3]].
-        split; [eapply agrees_interp_dyad; eauto | split; [exact G2 | intro H; apply G3, PS, H]].
-      * assert (U : is_undef (kg_dyad "%" a' b') = true -> pyscalar a && pyscalar b = true).
-        { intro H. apply PS. cbn [interp] in Dund. rewrite Ib in Dund. cbn [bind] in Dund. rewrite Ia in Dund.
-          cbn [bind] in Dund. change (String.eqb "%" "%") with true in Dund. cbv iota in Dund.
-          rewrite H in Dund. exact Dund. }
-        destruct (py_div_kg _ _ _ _ _ Wa Wb Ea Eb U E) as [G1 [G2 G3]].
-        split; [eapply agrees_interp_dyad; eauto | split; [exact G2 | intro H; apply G3, PS, H]].
-      * discriminate Dpow.
+      destruct (IHa _ _ _ A1 Pfin1 AG Da _ E1) as [[a' [Ia Ea]] Wa].
+      destruct (IHb _ _ _ A2 Pfin2 AG Db _ E2) as [[b' [Ib Eb]] Wb].
+      destruct (assoc op (t_call T)) as [c |] eqn:AC.
+      * rewrite Thelp in E. assert (IN := table_entry _ _ _ _ Tcall AC).
+        destruct IN as [IN | [IN | []]]; injection IN as <- <-.
+        -- change (py_helper "_div" a b) with (py_div_guarded a b) in E.
+           destruct (py_div_guarded_kg _ _ _ _ _ Wa Wb Ea Eb E) as [G1 G2].
+           split; [eapply agrees_interp_dyad; eauto | exact G2].
+        -- change (py_helper "_pow" a b) with (kg_power a b) in E.
+           destruct (kg_power_kg _ _ _ _ _ Wa Wb Ea Eb E) as [G1 G2].
+           split; [eapply agrees_interp_dyad; eauto | exact G2].
+      * destruct (assoc op (t_bin T)) as [o |] eqn:AS; [| discriminate].
+        assert (IN := table_entry _ _ _ _ Tbin AS).
+        destruct IN as [IN | [IN | [IN | []]]]; injection IN as <- <-.
+        -- change (py_binop "+" a b) with (py_arith n_add a b) in E.
+           destruct (py_arith_kg _ _ _ _ _ _ Wa Wb Ea Eb E) as [G1 [G2 _]].
+           split; [eapply agrees_interp_dyad; eauto | exact G2].
+        -- change (py_binop "-" a b) with (py_arith n_sub a b) in E.
+           destruct (py_arith_kg _ _ _ _ _ _ Wa Wb Ea Eb E) as [G1 [G2 _]].
+           split; [eapply agrees_interp_dyad; eauto | exact G2].
+        -- rewrite (py_mul_arith _ _ Wa Wb) in E.
+           destruct (py_arith_kg _ _ _ _ _ _ Wa Wb Ea Eb E) as [G1 [G2 _]].
+           split; [eapply agrees_interp_dyad; eauto | exact G2].
     + destruct (mem op (cmp_ops T)); [| discriminate].
       injection A as <- _. cbn [eval_ir] in E.
       apply bind_ok in E. destruct E as [a [E1 E]]. apply bind_ok in E. destruct E as [b [E2 E]].
       destruct (assoc op (t_cmp T)) as [o |] eqn:AS; [| discriminate].
-      destruct (IHa _ _ _ A1 Pfin1 AG Da _ E1) as [[a' [Ia Ea]] [Wa Pa]].
-      destruct (IHb _ _ _ A2 Pfin2 AG Db _ E2) as [[b' [Ib Eb]] [Wb Pb]].
+      destruct (IHa _ _ _ A1 Pfin1 AG Da _ E1) as [[a' [Ia Ea]] Wa].
+      destruct (IHb _ _ _ A2 Pfin2 AG Db _ E2) as [[b' [Ib Eb]] Wb].
       assert (IN := table_entry _ _ _ _ Tcmp AS).
-      assert (PS : pypure rho ea && pypure rho eb = true -> pyscalar a && pyscalar b = true).
-      { intro H. apply andb_true_iff in H. destruct H as [H1 H2]. rewrite (Pa H1), (Pb H2). reflexivity. }
-      rewrite PP.
       destruct IN as [IN | [IN | [IN | []]]]; injection IN as <- <-.
       * change (py_cmp "==" a b) with (py_arith n_eq a b) in E.
-        destruct (py_eq_kg _ _ _ _ _ Wa Wb Ea Eb E) as [G1 [G2 G3]].
-        split; [eapply agrees_interp_dyad; eauto | split; [exact G2 | intro H; apply G3, PS, H]].
+        destruct (py_eq_kg _ _ _ _ _ Wa Wb Ea Eb E) as [G1 [G2 _]].
+        split; [eapply agrees_interp_dyad; eauto | exact G2].
       * change (py_cmp ">" a b) with (py_arith n_gt a b) in E.
-        destruct (py_arith_kg _ _ _ _ _ _ Wa Wb Ea Eb E) as [G1 [G2 G3]].
-        split; [eapply agrees_interp_dyad; eauto | split; [exact G2 | intro H; apply G3, PS, H]].
+        destruct (py_arith_kg _ _ _ _ _ _ Wa Wb Ea Eb E) as [G1 [G2 _]].
+        split; [eapply agrees_interp_dyad; eauto | exact G2].
       * change (py_cmp "<" a b) with (py_arith n_lt a b) in E.
-        destruct (py_arith_kg _ _ _ _ _ _ Wa Wb Ea Eb E) as [G1 [G2 G3]].
-        split; [eapply agrees_interp_dyad; eauto | split; [exact G2 | intro H; apply G3, PS, H]].
+        destruct (py_arith_kg _ _ _ _ _ _ Wa Wb Ea Eb E) as [G1 [G2 _]].
+        split; [eapply agrees_interp_dyad; eauto | exact G2].
   - destruct (String.eqb op "-") eqn:OP; [| discriminate].
     destruct (ast_to_ir T rho0 ea vr) as [[c vr1] |] eqn:A1; [| discriminate].
     injection A as <- <-. cbn [eval_ir] in E. apply bind_ok in E. destruct E as [a [E1 E]].
     cbn [d5] in D.
-    destruct (IHa _ _ _ A1 P AG D _ E1) as [[a' [Ia Ea]] [Wa Pa]].
-    destruct (py_neg_kg _ _ _ Wa Ea E) as [G1 [G2 G3]].
-    split; [cbn [interp]; rewrite OP, Ia; exact G1 | split; [exact G2 | intro H; apply G3, Pa, H]].
+    destruct (IHa _ _ _ A1 P AG D _ E1) as [[a' [Ia Ea]] Wa].
+    destruct (py_neg_kg _ _ _ Wa Ea E) as [G1 [G2 _]].
+    split; [cbn [interp]; rewrite OP, Ia; exact G1 | exact G2].
   - destruct (mem op (redscan_ops T)); [| discriminate].
     destruct (ast_to_ir T rho0 ea vr) as [[c vr1] |] eqn:A1; [| discriminate].
     cbn [d5] in D.
     destruct (String.eqb adv "/") eqn:AD.
     + injection A as <- <-. cbn [eval_ir] in E. apply bind_ok in E. destruct E as [a [E1 E]].
       destruct (assoc op (t_red T)) as [m |] eqn:AS; [| discriminate].
-      destruct (IHa _ _ _ A1 P AG D _ E1) as [[a' [Ia Ea]] [Wa Pa]].
+      destruct (IHa _ _ _ A1 P AG D _ E1) as [[a' [Ia Ea]] Wa].
       assert (IN := table_entry _ _ _ _ Tred AS).
       assert (G : agrees (kg_over op a') v /\ wfv v).
       { destruct IN as [IN | [IN | [IN | [IN | []]]]]; injection IN as <- <-.
@@ -592,11 +593,11 @@ Proof.
         - change (py_call "np.minimum.reduce" a) with (ufunc_reduce n_min None a) in E.
           exact (reduce_kg "&" _ _ _ _ _ eq_refl Wa Ea E). }
       destruct G as [G1 G2].
-      split; [cbn [interp]; rewrite Ia; cbn [bind]; rewrite AD; exact G1 | split; [exact G2 | discriminate]].
+      split; [cbn [interp]; rewrite Ia; cbn [bind]; rewrite AD; exact G1 | exact G2].
     + destruct (String.eqb adv "\") eqn:AD2; [| discriminate].
       injection A as <- <-. cbn [eval_ir] in E. apply bind_ok in E. destruct E as [a [E1 E]].
       destruct (assoc op (t_scan T)) as [m |] eqn:AS; [| discriminate].
-      destruct (IHa _ _ _ A1 P AG D _ E1) as [[a' [Ia Ea]] [Wa Pa]].
+      destruct (IHa _ _ _ A1 P AG D _ E1) as [[a' [Ia Ea]] Wa].
       assert (IN := table_entry _ _ _ _ Tscan AS).
       assert (G : agrees (kg_scan op a') v /\ wfv v).
       { destruct IN as [IN | [IN | []]]; injection IN as <- <-.
@@ -605,7 +606,7 @@ Proof.
         - change (py_call "np.multiply.accumulate" a) with (ufunc_accumulate n_mul a) in E.
           exact (scan_kg "*" _ _ _ _ eq_refl Wa Ea E). }
       destruct G as [G1 G2].
-      split; [cbn [interp]; rewrite Ia; cbn [bind]; rewrite AD, AD2; exact G1 | split; [exact G2 | discriminate]].
+      split; [cbn [interp]; rewrite Ia; cbn [bind]; rewrite AD, AD2; exact G1 | exact G2].
   - discriminate.
 Qed.
 
@@ -625,8 +626,7 @@ Proof.
   { intros k s N. destruct (NV _ _ N) as [v1 [R1 N1]]. exists v1. split; [exact R1 |]. split.
     - rewrite PN. unfold names. rewrite <- LV. rewrite <- N1. exact (bind_params_names vs 0 k).
     - rewrite forallb_forall in G. apply G. eapply nth_error_In. exact N1. }
-  destruct (eval_ir_interp T TOK rho0 rho _ (c_syms c) e [] _ _ A (prefix_refl _) AG D v R) as [H _].
-  exact H.
+  exact (proj1 (eval_ir_interp T TOK rho0 rho _ (c_syms c) e [] _ _ A (prefix_refl _) AG D v R)).
 Qed.
 
 Definition res_agree (s i : res val) : Prop :=
@@ -675,25 +675,14 @@ Lemma guard_rejects : forall T c rho vs,
 Proof. intros T c rho vs F G. unfold run_compiled. rewrite F, G. reflexivity. Qed.
 
 (* ------------------------------------------------------------------ the statement without the finding classes *)
-Fixpoint dom (rho : env) (e : expr) : bool :=
-  match e with
-  | ELitI _ | ELitR _ _ => true
-  | ESym s => match rho s with Some v => numeric v | None => false end
-  | EDyad _ a b => dom rho a && dom rho b
-  | EMonad _ a => dom rho a
-  | EAdv _ _ a => dom rho a
-  | EOther => false
-  end.
+Definition dom := d5.
 
 Definition full_statement (T : tables) (g : bool) : Prop :=
   forall e rho0 rho c, compile T rho0 e = Some c -> dom rho e = true ->
   forall v, run_compiled T g c rho = Ok v -> agrees (interp rho e) v.
 
 Lemma d5_dom : forall rho e, d5 rho e = true -> dom rho e = true.
-Proof.
-  intros rho e. induction e as [z | f r | s | op a IHa b IHb | op a IHa | op adv a IHa |]; cbn; intro H; try exact H; auto.
-  repeat (apply andb_true_iff in H; destruct H as [H ?]). rewrite IHa, IHb; auto.
-Qed.
+Proof. intros rho e H. exact H. Qed.
 
 Definition env1 (s : string) (v : val) : env := fun n => if String.eqb n s then Some v else None.
 Definition env2 (s : string) (v : val) (t : string) (w : val) : env :=
@@ -703,8 +692,17 @@ Definition env2 (s : string) (v : val) (t : string) (w : val) : env :=
 Definition with_cumsum (T : tables) : tables :=
   {| arith_ops := arith_ops T; cmp_ops := cmp_ops T; redscan_ops := redscan_ops T;
      t_bin := t_bin T; t_cmp := t_cmp T; t_red := t_red T;
-     t_scan := [("+", "np.cumsum"); ("*", "np.cumprod")]; adm_obj := adm_obj T;
-     f_bin := f_bin T; f_cmp := f_cmp T; f_neg := f_neg T; f_red := f_red T; f_scan := f_scan T |}.
+     t_scan := [("+", "np.cumsum"); ("*", "np.cumprod")];
+     t_call := t_call T; helpers_bound := helpers_bound T; adm_obj := adm_obj T;
+     f_bin := f_bin T; f_cmp := f_cmp T; f_neg := f_neg T; f_red := f_red T; f_scan := f_scan T; f_call := f_call T |}.
+
+(* the tree before compiled_divide / _pow: Divide and Power emitted as the Python operators / and ** *)
+Definition with_infix_div_pow (T : tables) : tables :=
+  {| arith_ops := arith_ops T; cmp_ops := cmp_ops T; redscan_ops := redscan_ops T;
+     t_bin := [("+", "+"); ("-", "-"); ("*", "*"); ("%", "/"); ("^", "**")];
+     t_cmp := t_cmp T; t_red := t_red T; t_scan := t_scan T;
+     t_call := []; helpers_bound := helpers_bound T; adm_obj := adm_obj T;
+     f_bin := f_bin T; f_cmp := f_cmp T; f_neg := f_neg T; f_red := f_red T; f_scan := f_scan T; f_call := f_call T |}.
 
 Lemma refute : forall T g e rho0 rho c v r,
   compile T rho0 e = Some c -> dom rho e = true -> run_compiled T g c rho = Ok v -> interp rho e = r ->
